@@ -230,3 +230,93 @@ func runR415(c *core.Ctx, rule string, prods map[*ssa.Function]keyProducer) {
 		c.Undecided(rule, "chunked#chunk-sweeps", "-", "no request for a numbered chunk key found")
 	}
 }
+
+// runR417 (R4.17): the chunking backend reads a hit the way the backend frames it: 4 bytes of extras (the item flags)
+// come before the stored bytes. In every function of package chunked that reads a reply header and then the stored
+// entry (metadata record, or token + chunk data), each path from the header read to the first read of the entry passes
+// exactly one consumption of 4 bytes (Discard(4) or a 4-byte read). Without it the first four bytes of the record are
+// the item flags; with two, four bytes of the record are lost.
+func runR417(c *core.Ctx, rule string) {
+	n := 0
+	pv := &ssax.Prov{}
+	for _, fn := range pkgFuncs(c, relChunked) {
+		var hdr ssa.Instruction
+		ssax.Instrs(fn, func(ins ssa.Instruction) {
+			if cc := ssax.CallOf(ins); cc != nil && ssax.CalleeName(cc) == pBinprot+".ReadResponseHeader" {
+				hdr = ins
+			}
+		})
+		if hdr == nil {
+			continue
+		}
+		fourBytes := func(ins ssa.Instruction) bool {
+			cc := ssax.CallOf(ins)
+			if cc == nil {
+				return false
+			}
+			switch name := ssax.CalleeName(cc); {
+			case strings.HasSuffix(name, ").Discard"):
+				k, ok := ssax.ConstInt(cc.Args[len(cc.Args)-1])
+				return ok && k == 4
+			case name == "io.ReadAtLeast" || name == "io.ReadFull":
+				if ms, ok := ssax.Unwrap(cc.Args[1]).(*ssa.MakeSlice); ok {
+					k, ok := ssax.ConstInt(ms.Len)
+					return ok && k == 4
+				}
+				for _, d := range ssax.Defs(cc.Args[1]) {
+					if ms, ok := ssax.Unwrap(d).(*ssa.MakeSlice); ok {
+						if k, ok := ssax.ConstInt(ms.Len); ok && k == 4 {
+							return true
+						}
+					}
+				}
+			}
+			return false
+		}
+		// the first read of the stored entry: the metadata decoder, or a read into a caller-supplied buffer
+		entryRead := func(ins ssa.Instruction) bool {
+			cc := ssax.CallOf(ins)
+			if cc == nil {
+				return false
+			}
+			if callee := cc.StaticCallee(); callee != nil && roleMetaReader(callee) {
+				return true
+			}
+			if name := ssax.CalleeName(cc); name == "io.ReadAtLeast" || name == "io.ReadFull" {
+				return ssax.Any(pv.Sources(cc.Args[1]), func(s ssax.Src) bool { return s.Kind == "param" })
+			}
+			return false
+		}
+		hasEntry := false
+		ssax.Instrs(fn, func(ins ssa.Instruction) {
+			if entryRead(ins) {
+				hasEntry = true
+			}
+		})
+		if !hasEntry {
+			continue
+		}
+		n++
+		key := core.FuncName(fn) + "#extras-skipped-once"
+		miss, trail := (ssax.Reach{Target: entryRead, Avoid: fourBytes}).From(hdr)
+		twice := false
+		ssax.Instrs(fn, func(ins ssa.Instruction) {
+			if fourBytes(ins) {
+				if hit, _ := (ssax.Reach{Target: fourBytes, Avoid: entryRead}).From(ins); hit != nil {
+					twice = true
+				}
+			}
+		})
+		switch {
+		case miss != nil:
+			c.Violate(rule, key, c.P.Pos(miss.Pos()), "the stored entry is read without the 4 bytes of item flags that precede it having been consumed ("+strings.Join(ssax.BlockTrail(c.P.Fset, trail), " -> ")+"): the record / token is decoded four bytes early")
+		case twice:
+			c.Violate(rule, key, c.P.Pos(fn.Pos()), "4 bytes are consumed twice before the stored entry is read: the first four bytes of the record are lost")
+		default:
+			c.OK(rule, key, c.P.Pos(fn.Pos()), "exactly one 4-byte consumption between the reply header and the stored entry")
+		}
+	}
+	if n == 0 {
+		c.Undecided(rule, "chunked#extras-skipped-once", "-", "no function reads a reply header and then a stored entry")
+	}
+}
